@@ -6,6 +6,8 @@ CONSTANTS
   OutOf <- OutTwo
   SingleFile = FALSE
   GenKinds = {"ok", "generr"}
+  Visits <- VisitsOnce
+  Dedupe = "none"
   Items <- ItemsDistinct
 SPECIFICATION Spec
 INVARIANTS TypeOk ExitOk NoWriteWithErrors WroteOk NoPanicExit
